@@ -238,6 +238,32 @@ pub fn search(tier: &str, seed: u64, s: &mut Search) {
         let (w, h) = (rng.range(10, 150) as u32, rng.range(10, 150) as u32);
         inputs.push(("generated".into(), crate::gen::random_doc(&mut rng, crate::gen::Cfg::full(w, h)).into_bytes(), None));
     }
+    // documents without a size of their own (no viewBox, missing or relative width / height, relative content):
+    // their size comes from the fallback viewport the command derives from -w / -h
+    for _ in 0..(if tier == "thorough" { 120 } else { 16 } * mult) {
+        let attrs = match rng.below(5) {
+            0 => String::new(),
+            1 => r#" width="50%""#.to_string(),
+            2 => r#" height="200%""#.to_string(),
+            3 => r#" width="100%" height="100%""#.to_string(),
+            _ => format!(r#" width="{}""#, rng.range(20, 90)),
+        };
+        let doc = format!(
+            r##"<svg xmlns="http://www.w3.org/2000/svg"{attrs}><rect width="100%" height="100%" fill="#08f"/><circle cx="50%" cy="50%" r="{}%" fill="#f80"/><rect x="10%" y="60%" width="30%" height="20%"/></svg>"##,
+            rng.range(5, 40)
+        );
+        inputs.push(("sizeless".into(), doc.into_bytes(), None));
+    }
+    // a drawing that lies outside of the page, and an empty one (for --export-area-drawing)
+    for k in 0..(if tier == "thorough" { 40 } else { 8 }) {
+        let doc = match k % 4 {
+            0 => r##"<svg xmlns="http://www.w3.org/2000/svg" width="100" height="100"><rect x="300" y="300" width="20" height="20" fill="red"/></svg>"##.to_string(),
+            1 => r##"<svg xmlns="http://www.w3.org/2000/svg" width="100" height="100"></svg>"##.to_string(),
+            2 => format!(r##"<svg xmlns="http://www.w3.org/2000/svg" width="100" height="100"><circle cx="{}" cy="50" r="10" fill="red"/></svg>"##, -rng.range(30, 300)),
+            _ => format!(r##"<svg xmlns="http://www.w3.org/2000/svg" width="100" height="100"><rect x="{}" y="{}" width="30" height="30" fill="red"/></svg>"##, rng.range(80, 99), rng.range(-29, -1)),
+        };
+        inputs.push(("off-page".into(), doc.into_bytes(), None));
+    }
     for i in 0..(if tier == "thorough" { 200 } else { 24 } * mult) {
         let data: Vec<u8> = match i % 6 {
             0 => vec![],
@@ -263,7 +289,12 @@ pub fn search(tier: &str, seed: u64, s: &mut Search) {
         let _ = std::fs::remove_file(&out);
         // ---- options
         let (mut w, mut h, mut z): (Option<u32>, Option<u32>, Option<f32>) = (None, None, None);
-        match rng.below(6) {
+        let mut huge = None;
+        match rng.below(7) {
+            6 if k % 3 == 0 => {
+                // sizes nobody can allocate: the command has to refuse them, not crash
+                huge = Some(*rng.pick(&[["-w", "4000000000"], ["-h", "3000000000"], ["-z", "1e9"], ["-z", "1e30"], ["-z", "100000000"]]));
+            }
             0 => w = Some(rng.range(1, 300) as u32),
             1 => h = Some(rng.range(1, 300) as u32),
             2 => {
@@ -280,9 +311,10 @@ pub fn search(tier: &str, seed: u64, s: &mut Search) {
         if let Some(w) = w { args.extend(["-w".into(), w.to_string()]); }
         if let Some(h) = h { args.extend(["-h".into(), h.to_string()]); }
         if let Some(z) = z { args.extend(["-z".into(), z.to_string()]); }
+        if let Some(hg) = huge { args.extend([hg[0].to_string(), hg[1].to_string()]); }
         if dpi != 96 { args.extend(["--dpi".into(), dpi.to_string()]); }
         if let Some(b) = bg { args.extend(["--background".into(), b.to_string()]); }
-        let area_drawing = rng.chance(1, 8);
+        let area_drawing = rng.chance(1, 8) || (class == "off-page" && rng.chance(2, 3));
         if area_drawing { args.push("--export-area-drawing".into()); }
         let key = format!("{} {:?} [{}]", class, args[NF..].join(" "), match path { Some(p) => p.display().to_string(), None => String::from_utf8_lossy(data).chars().take(600).collect() });
         let r = match mode {
@@ -341,6 +373,10 @@ pub fn search(tier: &str, seed: u64, s: &mut Search) {
             continue;
         }
         if mode == 7 {
+            continue;
+        }
+        if huge.is_some() {
+            s.finding("oracle:C20:impossible-size-accepted", "the command exits 0 for a target size that cannot be allocated", &key);
             continue;
         }
         // success: a PNG with the documented size and the library's pixels
